@@ -180,7 +180,15 @@ class Lib:
         return False
 
     def try_stmt(self, run, n, env):
-        return False
+        """supported pattern: a try body whose modelled operations cannot raise (e.g. creation of a lambda);
+        the handlers are then dead code.  finally/else are outside the subset."""
+        if n.finalbody or n.orelse:
+            return False
+        for st in n.body:
+            if not (isinstance(st, ast.Assign) and isinstance(st.value, ast.Lambda)):
+                return False
+        run.exec_block(n.body, env)
+        return True
 
     # ----------------------------------------------------------------------------------------------
     def slice(self, run, base, sl, env, lineno):
@@ -454,6 +462,8 @@ class Lib:
             return NONE
         if name == 'len':
             v = args[0]
+            if hasattr(v, 'size') and getattr(v, 'kind', '') == 'heap':
+                return v.size()
             if isinstance(v, SList):
                 return v.n
             if isinstance(v, (_EmptyList, _EmptyDict)):
@@ -693,6 +703,8 @@ class Lib:
             n, p = args[0], args[1]
             m = fresh('bin', I)
             run.assume(And(0 <= m, m <= n))
+            run.assume(Implies(p <= 0, m == 0))
+            run.assume(Implies(p >= 1, m == n))
             run.site('np.random.binomial', lineno, n=n, p=p, value=m)
             return m
         if name in ('np.array', 'numpy.array'):
